@@ -53,7 +53,7 @@ COMPONENTS = {
 def env_for(hashseed):
     e = dict(os.environ)
     e["PYTHONHASHSEED"] = str(hashseed)
-    e["PYTHONPATH"] = "/repo/src:" + VERIF
+    e["PYTHONPATH"] = os.environ.get("VERIF_REPO", "/repo") + "/src:" + VERIF
     e["PYTHONDONTWRITEBYTECODE"] = "1"
     e["DVC_DATA_VERIF"] = "1"
     return e
